@@ -85,11 +85,11 @@ def main():
             rc1, out1 = sh("bash /tmp/sv_%s_demo.sh" % sid, cwd=wt, timeout=1800)
             meta["demo_fails_with_patch_confirmed"] = rc1 != 0 or "FAIL" in out1
             print("demo with patch rc=%d tail: %s" % (rc1, out1[-300:].replace("\n", " | ")))
-            sh("git stash", cwd=wt)
+            sh("git apply -R %s" % os.path.join(dst, "patch.diff"), cwd=wt)   # never git stash: the stash is shared by all worktrees
             rc2, out2 = sh("bash /tmp/sv_%s_demo.sh" % sid, cwd=wt, timeout=1800)
             meta["demo_passes_without_patch_confirmed"] = rc2 == 0 and "FAIL" not in out2.replace("FAILED: 0", "")
             print("demo without patch rc=%d tail: %s" % (rc2, out2[-200:].replace("\n", " | ")))
-            sh("git stash pop", cwd=wt)
+            sh("git apply %s" % os.path.join(dst, "patch.diff"), cwd=wt)
             ran.append("demonstration: with patch rc=%d, without patch rc=%d" % (rc1, rc2))
             os.unlink("/tmp/sv_%s_demo.sh" % sid)
         # remove the cmake build before running checks (disk)
